@@ -33,6 +33,10 @@ socket refuses with EMSGSIZE once the SOCKS header is added (hmc.udpharness.CapS
 OSError from sendto goes to error_received, nothing is raised).  Oracle: no sendto, session / circuit / association
 state unchanged (fault-zero-sends, fault-state-unchanged; for so_big exactly one refused sendto to the right viewer and
 unchanged liveness), later valid datagrams delivered exactly once.  connection_lost is outside the statement.
+Region re-announcement (``move_scenarios``): ("r_announce", i) registers SIMS[2] through Session.register_region with the
+*login region's handle* (what EnableSimulator / TeleportFinish / CrossedRegion do after a region restart) -- with the old
+circuit still alive, after a clean shutdown, and before any circuit -- followed by UseCircuitCode and traffic both ways at
+the new address and at the old ones, under the usual exactly-once / right-peer / socks-wrap clauses.
 SOCKS control seam (``control_scenarios``): both associations are created by the real ``SLSOCKS5Server.handle_connection``
 on in-memory StreamReader / writer stand-ins (greeting + UDP ASSOCIATE; only ``loop.create_datagram_endpoint`` is replaced
 by one that calls the protocol factory and hands it the capturing socket); ("c_close", i) = EOF on viewer i's control
@@ -164,6 +168,7 @@ class Model:
         self.open = set()           # (association, region) with a circuit object (alive or dead)
         self.dead = set()           # subset of open: killed by CloseCircuit / DisableSimulator, not yet re-opened
         self.gone = set()           # associations whose SOCKS control connection has ended
+        self.announced = set()      # sessions for which SIMS[2] has been registered (with the login region's handle)
         self.next_pid: Dict[Tuple[int, int, str], int] = {}
 
     @staticmethod
@@ -188,7 +193,7 @@ class Model:
 
     def key(self):
         return (tuple(self.claimed), tuple(sorted(self.open)), tuple(sorted(self.dead)), tuple(sorted(self.next_pid.items())),
-                tuple(sorted(self.gone)))
+                tuple(sorted(self.gone)), tuple(sorted(self.announced)))
 
 
 class Harness:
@@ -353,6 +358,8 @@ class Harness:
             d.update(cls="fault", data=b"", src=None, lludp=b"")
         elif k == "c_close":
             d.update(cls="control-close", data=b"", src=None, lludp=b"")
+        elif k == "r_announce":
+            d.update(cls="announce", data=b"", src=None, lludp=b"")
         elif k == "g_foreign":
             sim(_chat_in(i, GARBAGE_PID, 0x40), U.FOREIGN_HOST)
         elif k == "g_unreg":
@@ -432,6 +439,18 @@ class Harness:
             sends, exc = w.os_error(i, OSError(code, os.strerror(code)))
         elif d["cls"] == "control-close":
             sends, exc, task_done = w.close_control(i)
+        elif d["cls"] == "announce":
+            # EnableSimulator / TeleportFinish / CrossedRegion path: the login region's handle shows up at another address
+            n0 = len(w.sends)
+            exc = None
+            try:
+                w.sessions[i].register_region(circuit_addr=U.SIMS[2], seed_url=f"https://sim2.test.localhost:12043/cap/{i}/seed",
+                                              handle=((1000 + i) << 32) | 1000)
+            except Exception as e:  # noqa
+                exc = e
+            w.loop.run_ready()
+            sends = w.sends[n0:]
+            m.announced.add(i)
         else:
             sends, exc = w.deliver(i, d["data"], d["src"])
         after = tuple(w.session_state(x) for x in range(self.n))
@@ -441,7 +460,11 @@ class Harness:
         def bad(clause, site, detail):
             w.violations.append({"clause": clause, "site": site, "detail": detail})
 
-        if d["cls"] == "control-close":
+        if d["cls"] == "announce":
+            if sends or exc is not None:
+                bad("garbage-zero-sends", "Session.register_region:known-handle-new-address",
+                    f"registering a region caused {len(sends)} sendto / exception {exc!r}")
+        elif d["cls"] == "control-close":
             site = "SOCKS5Server.handle_connection:teardown"
             m.gone.add(i)
 
@@ -768,6 +791,12 @@ def _is_enabled(h, w, ev) -> bool:
         return True
     if ev[0] == "c_close":
         return h.via_socks and ev[1] not in w.model.gone
+    if ev[0] == "r_announce":
+        return ev[1] not in w.model.announced
+    if len(ev) > 2 and ev[2] == 2 and ev[0] in ("U", "vo", "vr", "so", "sr", "vc", "sd", "vx", "sx"):   # the re-announced address
+        if ev[1] not in w.model.announced:
+            return False
+        return ev[0] == "U" or w.model.alive(ev[1], 2)
     if ev[1] in w.model.gone:
         return False
     if ev[0] == "so_big":
@@ -799,6 +828,20 @@ def _interleave_worker(item):
     for v in viols:
         part.violation(v["clause"], v["site"], {"kind": "interleave", "base": base, "history": [list(e) for e in hist], "seed": _SEED}, v["detail"])
     return part.dump()
+
+
+def move_scenarios():
+    """A region whose handle is already registered is announced at a new address (SIMS[2]) while the old circuit is still
+    alive (the old simulator vanished without DisableSimulator/CloseCircuit), after a clean shutdown, or before any circuit:
+    UseCircuitCode + traffic both ways at the new address, then at the old ones, must reach exactly the addressed peer."""
+    for i in (0, 1):
+        new = (("U", i, 2), ("vo", i, 2), ("so", i, 2), ("vr", i, 2), ("sr", i, 2), ("sx", i, 2, "same"))
+        yield ("all-open", (("r_announce", i),) + new + (("vo", i, 1), ("so", i, 1), ("vo", 1 - i, 0), ("so", 1 - i, 0)))
+        yield ("main-open", (("so", i, 0), ("r_announce", i)) + new + (("U", i, 1), ("so", i, 1)))
+        yield ("main-open", (("vc", i, 0), ("r_announce", i)) + new)
+        yield ("main-open", (("sd", i, 0), ("r_announce", i)) + new + (("U", i, 0), ("so", i, 0), ("so", i, 2)))
+        yield ("empty", (("r_announce", i),) + new + (("U", i, 0), ("vo", i, 0), ("so", i, 0), ("so", i, 2)))
+        yield ("socks:main-open", (("r_announce", i),) + new)
 
 
 def control_scenarios():
@@ -968,6 +1011,7 @@ def run(run: Run):
     items += list(resend_scenarios())
     n_ctl = len(items)
     items += list(control_scenarios())
+    items += list(move_scenarios())
     run.coverage_extra.update(control_scenarios=len(items) - n_ctl)
     items += list(repeated_garbage("one-open")) + list(repeated_garbage("all-open"))
     n_il = len(items)
